@@ -111,6 +111,34 @@ def authorize (admin bound : Option String) (scope : Scope) (presented : Option 
           else .error .unauthorized                                -- rule 4 (wrong or missing token)
         | none => .error .unauthorized                             -- rule 4 (no binding)
 
+/-! ### the digest made explicit
+
+The code never compares keys: it stores `ApiKeyHash::from_key(key)` and compares
+`from_key(presented)` with it. `authorizeH h` is `authorize` with that made explicit for an arbitrary
+digest function `h`; `authorize` above is the instance "digest equality = key equality", which is
+right exactly when `h` is injective (`Props/C14: key_equality_iff_injective`). -/
+
+def presentedIsH {D : Type} [DecidableEq D] (h : String → D) (stored : D) : Option String → Bool
+  | some p => decide (h p = stored)
+  | none => false
+
+def authorizeH {D : Type} [DecidableEq D] (h : String → D) (admin bound : Option D) (scope : Scope)
+    (presented : Option String) : Except ApiError Principal :=
+  match admin with
+  | none => .ok .admin
+  | some a =>
+    if presentedIsH h a presented then .ok .admin
+    else
+      match scope with
+      | .root => .error .unauthorized
+      | .database _ =>
+        match bound with
+        | some b => if presentedIsH h b presented then .ok .database else .error .unauthorized
+        | none => .error .unauthorized
+
+/-- a lossy digest of the kind the property excludes: only the first `n` characters count -/
+def prefixDigest (n : Nat) (k : String) : String := String.ofList (k.toList.take n)
+
 /-! ## Server state -/
 
 /-- The part of `ServerOptions` the decisions depend on. -/
